@@ -23,12 +23,15 @@ from ..harness import Sim, stop, Livelock
 PROPERTY = 'C11'
 LEVEL = 'model_checking'
 LEVEL_TEXT = ("Bounded exhaustive model checking of the real event delivery code: every directed "
-              "event topology over <=2 blocks of 8 kinds (quick) / <=3 blocks (kind subset; "
+              "event topology over <=2 blocks of 12 kinds incl. OutputFunc on_success/on_error (quick) / <=3 blocks (kind subset; "
               "thorough: more) x edge patterns (output, every-output, on_enter, Repeat forward; "
               "one rejecting filter or one 'no event' conditional per edge) x every external "
               "event sequence up to the bound; a reference of synchronous propagation predicts "
               "recursion (simulation must die with EdzedCircuitError) or the resulting states; "
-              "after every step every block is probed for a stuck guard.")
+              "after every step every block is probed for a stuck guard. With start-up events not "
+              "gated off a second reference (creation order, early initialisation by a pending event, "
+              "blocks that initialise by an event of their own) predicts whether the start is refused "
+              "and the block states after it.")
 LEVEL_NOTE = ("Events generated during start-up are gated off (edge filters pass only once the "
               "circuit runs), so cyclic topologies survive initialisation; the documented "
               "exceptions (chained FSM transition by entry action / zero timer) are part of the "
